@@ -36,7 +36,7 @@ BATCH = 30
 KIND2CLS = {
     'asg': 'Assignment', 'secasg': 'Assignment', 'whole': 'Assignment', 'do': 'Loop', 'while': 'WhileLoop',
     'if': 'Conditional', 'if1': 'Conditional', 'select': 'MultiConditional', 'where': 'MaskedStatement',
-    'assoc': 'Associate', 'call': 'CallStatement', 'comment': 'Comment', 'pragma': 'Pragma',
+    'assoc': 'Associate', 'call': 'CallStatement', 'callshadow': 'CallStatement', 'comment': 'Comment', 'pragma': 'Pragma',
 }
 CLASSES = ['Assignment', 'Loop', 'WhileLoop', 'Conditional', 'MultiConditional', 'MaskedStatement', 'Associate',
            'CallStatement', 'Pragma']
@@ -123,6 +123,8 @@ def own_exprs(s):
         return out
     if k == 'call':
         return list(s[2])
+    if k == 'callshadow':
+        return [s[1], s[2]]
     return []
 
 
@@ -301,6 +303,77 @@ def judge_batch(batch):
     return out
 
 
+# ------------------------------------------------------------------ declarations with initialisers (spec search)
+INITS = [None, '4', '2*nb + 1', 'max(nb, 3) - nb']
+INIT_OCC = {None: ({}, [], []), '4': ({}, [4], []), '2*nb + 1': ({'nb': 1}, [2, 1], []),
+            'max(nb, 3) - nb': ({'nb': 2}, [3], ['max'])}
+
+
+def spec_cases(maxk):
+    import itertools
+    cases = []
+    for param in (True, False):
+        for k in range(1, maxk + 1):
+            for inits in itertools.product(INITS, repeat=k):
+                if param and None in inits:
+                    continue
+                if not param and all(i is None for i in inits):
+                    continue
+                cases.append((param, inits))
+    return cases
+
+
+def judge_specs(maxk):
+    _quiet()
+    from loki import Sourcefile, Frontend, ir, FindNodes, FindVariables, FindInlineCalls, FindLiterals
+    from loki.expression import symbols as sym
+    cases = spec_cases(maxk)
+    lines = ['module smod', 'implicit none', 'contains']
+    for n, (param, inits) in enumerate(cases):
+        ents = ', '.join(f'e{j}' + (f' = {i}' if i is not None else '') for j, i in enumerate(inits))
+        lines += [f'subroutine s{n}(r)', '  integer, intent(out) :: r', '  integer, parameter :: nb = 2',
+                  f'  integer{", parameter" if param else ""} :: {ents}', '  r = nb', f'end subroutine s{n}']
+    lines.append('end module smod')
+    sf = Sourcefile.from_source('\n'.join(lines) + '\n', frontend=Frontend.FP)
+    routines = {r.name.lower(): r for r in sf.all_subroutines}
+    viols, nchk = [], 0
+    for n, (param, inits) in enumerate(cases):
+        r = routines[f's{n}']
+        decl = [d for d in FindNodes(ir.VariableDeclaration).visit(r.spec) if any(s.name.lower() == 'e0' for s in d.symbols)]
+        if len(decl) != 1:
+            viols.append(('spec: declaration node not found', f'{param} {inits}'))
+            continue
+        decl = decl[0]
+        want_v = collections.Counter({f'e{j}': 1 for j in range(len(inits))})
+        want_l, want_c = collections.Counter(), collections.Counter()
+        for i in inits:
+            v, l, c = INIT_OCC[i]
+            want_v.update(v)
+            want_l.update(l)
+            want_c.update(c)
+        pos = next((j for j, i in enumerate(inits) if i not in (None, '4')), None)
+        where = 'none' if pos is None else 'first' if pos == 0 else 'later'
+        for scope_name, root in (('declaration', decl), ('spec', r.spec)):
+            got_v = collections.Counter(v.name.lower() for v in FindVariables(unique=False).visit(root))
+            got_l = collections.Counter(int(x.value) for x in FindLiterals(unique=False).visit(root) if isinstance(x, sym.IntLiteral))
+            got_c = collections.Counter(c.function.name.lower() for c in FindInlineCalls(unique=False).visit(root))
+            extra = collections.Counter({'nb': 1, 'r': 1}) if scope_name == 'spec' else collections.Counter()
+            extra_l = collections.Counter({2: 1}) if scope_name == 'spec' else collections.Counter()
+            for finder, got, want in (('FindVariables', got_v, want_v + extra), ('FindLiterals', got_l, want_l + extra_l),
+                                      ('FindInlineCalls', got_c, want_c)):
+                nchk += 1
+                miss = want - got
+                unknown = set(got) - set(want)
+                if miss or unknown:
+                    kind = 'missing' if miss else 'extra'
+                    viols.append((f'{finder} {kind} in VariableDeclaration initialiser ({scope_name}, {"parameter" if param else "variable"}, '
+                                  f'expression in {where} entity)',
+                                  f'`integer{", parameter" if param else ""} :: ' + ', '.join(
+                                      f'e{j}' + (f' = {i}' if i is not None else '') for j, i in enumerate(inits)) +
+                                  f'`: found {dict(got)}, by construction at least {dict(want)}'))
+    return viols, nchk, len(cases)
+
+
 def run(ctx):
     L, nest = (1, 2) if ctx.quick else (2, 2)
     kernels = [(f'k{n:05d}', (name, body)) for n, (name, body, _) in enumerate(mfgen.valid_stream(L, nest))]
@@ -318,9 +391,13 @@ def run(ctx):
         name, body = byk[k]
         for sig, det in viols:
             ctx.violation(sig, dict(name=name, body=body, signature=sig), det)
+    sviols, snchk, scases = judge_specs(2 if ctx.quick else 3)
+    for sig, det in sviols:
+        ctx.violation(sig, dict(kind='spec', signature=sig, maxk=2 if ctx.quick else 3), det)
+    nchk += snchk
     ctx.require(nchk > 5000, f'vacuous: {nchk} finder results judged')
     ctx.cov.update(
-        evaluations=nchk, distinct_nontrivial=len(kernels), programs=len(kernels), exhaustive=True,
+        evaluations=nchk, distinct_nontrivial=len(kernels) + scases, programs=len(kernels), declaration_cases=scases, exhaustive=True,
         rule=f'MF kernel stream L<={L}, nesting<={nest}; evaluations = (finder, mode, node) results compared with the '
              'generator AST; distinct_nontrivial = distinct kernels',
         samples=[dict(kernel=kernels[0][1][0]), dict(kernel=kernels[-1][1][0])],
@@ -330,6 +407,11 @@ def run(ctx):
 
 
 def replay(case):
+    if case.get('kind') == 'spec':
+        for sig, det in judge_specs(case.get('maxk', 3))[0]:
+            if sig == case.get('signature'):
+                return det
+        return None
     res = judge_batch([('k00000', (case['name'], case['body']))])
     want = case.get('signature')
     for k, viols, n in res:
